@@ -17,7 +17,13 @@ fuzz_target!(|data: &[u8]| {
     if trace.watchdog {
         return;
     }
+    let only = std::env::var("VERIF_PROPERTY").ok();
     for v in viol {
+        if let Some(o) = &only {
+            if v.prop != o.as_str() && v.prop != "PANIC" {
+                continue;
+            }
+        }
         let tolerated = known.iter().any(|k| k.status == "known" && k.property == v.prop && sig_matches(&k.signature, &v.sig));
         if !tolerated {
             eprintln!("VIOLATION {} {}\n  {}\ncase: {}", v.prop, v.sig, v.detail, serde_json_like(&case));
